@@ -142,21 +142,7 @@ def run_cfg(ctx, cfg):
     # ---- rule 1c: fan-outs short-circuit on the first error ----------------------------------
     # union members are fetched with try_join_all, which stops polling the remaining members as soon as one of them reports
     # the cancellation; join_all (+ collect into a Result) keeps driving the siblings, which start further provider calls
-    n_tj = 0
-    for b in crate.bodies:
-        if not b.key.startswith("resolvo::solver::") or b.crate.is_test:
-            continue
-        for i, t in b.calls():
-            f = t.get("f")
-            if f is None:
-                continue
-            ks = callee_keys(f)
-            if any(k.endswith("::try_join_all") for k in ks):
-                n_tj += 1
-            if any(k.endswith("::join_all") or k.endswith("::join") or k.endswith("::join3") for k in ks) and "try_" not in f["name"]:
-                ctx.ob("short-circuit" + tag, b.key, "fan-out-stops-at-first-error:%s" % f["name"], False, where_call(b, i),
-                       "a non-short-circuiting join keeps polling the other members after one of them returned the cancellation")
-    ctx.floor("short-circuit" + tag, "try_join_all fan-outs on the solver path", n_tj, 2)
+    fan_outs(ctx, crate, tag)
 
     # ---- rule 2: poll per propagation round -------------------------------------------
     prop = body_by_key(crate, SOLVER + "propagate")
@@ -274,6 +260,26 @@ def run_cfg(ctx, cfg):
                             why = "the Break (error) edge of the `?` can reach on_task_result"
             ctx.ob("short-circuit" + tag, enc.key, "?-dominates-on_task_result", ok, where_call(enc, i), why if not ok else
                    "on_task_result only runs on the Continue edge of the `?` applied to the task result")
+
+
+def fan_outs(ctx, crate, tag, prefix="resolvo::solver::", floor=2):
+    """No non-short-circuiting join over fallible sub-queries: try_join_all hands the first error (the cancellation) to the
+    caller; join_all + flatten / collect drops it or keeps polling the siblings."""
+    n_tj = 0
+    for b in crate.bodies:
+        if not b.key.startswith(prefix) or b.crate.is_test:
+            continue
+        for i, t in b.calls():
+            f = t.get("f")
+            if f is None:
+                continue
+            ks = callee_keys(f)
+            if any(k.endswith("::try_join_all") for k in ks):
+                n_tj += 1
+            if any(k.endswith("::join_all") or k.endswith("::join") or k.endswith("::join3") for k in ks) and "try_" not in f["name"]:
+                ctx.ob("short-circuit" + tag, b.key, "fan-out-stops-at-first-error:%s" % f["name"], False, where_call(b, i),
+                       "a non-short-circuiting join keeps polling the other members after one of them returned the cancellation")
+    ctx.floor("short-circuit" + tag, "try_join_all fan-outs on the solver path", n_tj, floor)
 
 
 def _def_is_cancel_payload(b, df):
